@@ -313,6 +313,33 @@ def run(tier: str, seed: int) -> int:
         if (c in {a}) != same_unordered:
             pred_fail.append({'what': 'edge_setHit_iff', 'case': ['edge', e, f]})
 
+    # ---- 3b. identity is not at the mercy of what a getter returned: a caller that modifies the list `qubit_ids` gave it (sort,
+    # remove, extend — the partner-lookup idiom) must not change what the edge equals, hashes to or contains
+    # (seeded change C19-m7: the frozen edge hands out its internal list)
+    for e in oriented[:16] + deg[:2]:
+        a = T.edge(f'{e[0]}:{e[1]}')
+        ref_eq, ref_h = T.edge(f'{e[1]}:{e[0]}'), hash(a)
+        for how in ('remove', 'extend', 'reverse', 'clear'):
+            ids = a.qubit_ids
+            try:
+                if how == 'remove':
+                    ids.remove(ids[0])
+                elif how == 'extend':
+                    ids += T.edge(f'{oriented[5][0]}:{oriented[5][1]}').qubit_ids
+                elif how == 'reverse':
+                    ids.reverse()
+                else:
+                    ids.clear()
+            except AttributeError:
+                break        # an immutable sequence: nothing a caller can do to it
+            ok = (a == ref_eq) and (ref_eq == a) and hash(a) == ref_h and a.contains(T.qubit(e[0])) and a.contains(T.qubit(e[1])) \
+                and len(a.qubit_ids) == 2 and (a == T.edge(f'{oriented[5][0]}:{oriented[5][1]}')) == (set(e) == set(oriented[5]))
+            dist['edge-alias'] += 1
+            if not ok:
+                pred_fail.append({'what': 'edge identity changed by modifying the list qubit_ids returned', 'case': ['edge-alias', e, how]})
+                break
+            a = T.edge(f'{e[0]}:{e[1]}')
+
     # ---- 4. across kinds / non-identifiers, both directions
     objs = ['c:0:A', 'c:0:M', 'c:1:F', 'q:D1', 'q:X1', 'f:D1', 'f:FL1', 'e:D1:X1', 'e:X1:D1', 'e:D2:X1'] + \
            [f'o:{i}' for i in range(len(T.others))]
